@@ -478,6 +478,10 @@ ENV_PROGRAMS = [
     ('env-barry-as-flufl', "try:\n    c = compile('1 <> 2', '<s>', 'eval')\n    print('flufl')\nexcept SyntaxError:\n    print('no flufl')\n"),
     ('env-nested-compile-inherits', "c = compile('x: int = 1', '<s>', 'exec')\nd = {}\nexec(c, d)\nprint(d['__annotations__']['x'] is int)\n"),
     ('env-generator-stop', "def g():\n    yield 1\n    return 5\ndef h():\n    r = yield from g()\n    print('r', r)\nlist(h())\n"),
+    # code compiled by the SCRIPT under unusual file names: the trace machinery sees these frames' co_filename
+    ('env-nested-empty-filename', "c = compile('y = 41 + 1\\nprint(\\'inner\\', y)\\n', '', 'exec')\nprint('start')\nexec(c)\nprint('done', y)\n"),
+    ('env-nested-odd-filenames', "for fn in ('<', '>', '<>', 'a>', '<b', ' ', '.', '<x> ', 'no such dir/f.py'):\n    ns = {}\n    exec(compile('def f(a):\\n    return a + 1\\nr = f(1)\\n', fn, 'exec'), ns)\n    print(repr(fn), ns['r'])\n"),
+    ('env-nested-function-empty-filename', "ns = {}\nexec(compile('def g(n):\\n    t = 0\\n    for i in range(n):\\n        t += i\\n    return t\\n', '', 'exec'), ns)\nprint(ns['g'](4))\nprint(ns['g'](2))\n"),
     ('env-class-module-name', "class K:\n    pass\nprint(K.__qualname__, K.__module__ == __name__)\n"),
 ]
 
